@@ -100,6 +100,8 @@ func ruleInternLookup(c *Ctx) {
 	c.Floor("X.dom.intern", 3)
 }
 
+var internFuncs = []string{"plenccodec.InternedStringCodec.Read", "plenccodec.InternedStringCodec.addString"}
+
 func init() {
 	register(&propInfo{
 		ID:          "C19",
@@ -119,6 +121,7 @@ func init() {
 			ruleInternKey(c)
 			ruleNullCodecs(c)
 			ruleNullValue(c)
+			ruleCommaOk(c, internFuncs)
 		},
 	})
 }
